@@ -407,11 +407,23 @@ def mveq(exp, got, rtol=1e-12, sym_rtol=1e-9, regs_in_lists_raw=False):
         if regs and type(got).__name__ == "RegRefTransform":
             if sorted(got.regrefs) != regs:
                 return False
-            for i in range(3):
-                env = _env(S, i)
+            # measurement vectors: 3 generic points, then each register in turn at the special outcomes 0, 0.0, 1, -1, 2
+            # (integers as photon counts are) with the others generic, then all registers 0 and all registers 1
+            envs = [_env(S, i) for i in range(3)]
+            qs = sorted(t for t in S if t[0] == "q")
+            for t in qs:
+                for z in (0, 0.0, 1, -1, 2):
+                    e = dict(envs[0])
+                    e[t] = z
+                    envs.append(e)
+            for z in (0, 1):
+                e = dict(envs[1])
+                e.update({t: z for t in qs})
+                envs.append(e)
+            for env in envs:
                 try:
                     x = exp.ev(env)
-                except OutOfDomain:
+                except (OutOfDomain, ZeroDivisionError, OverflowError):
                     continue
                 try:
                     y = complex(got.func(*[env[("q", n)] for n in got.regrefs]))
